@@ -82,6 +82,23 @@ def sysRMat {K} [Add K] [OfNat K 0] (merged lup ldn : List Vec3)
     (scatterAdd (fun _ => 0) (rmap merged lup) (fun j => embedStrided 0 (Xup j) a b))
     (rmap merged ldn) (fun j => embedStrided 1 (Xdn j) a b) r
 
+/-! ### one spin channel of `Data_K_soc`: H(k) as a function of the PAIR (R list, matrix list) -/
+
+/-- `R_to_k` of one channel for one matrix entry: `Σ_i phase(R_i) · X_i` over the paired lists (`Rvectors.iRvec`, `Ham_R`).
+    Each channel (`data_K_up`, `data_K_down`) must be transformed with ITS OWN R list. -/
+def chanSum {K} [Add K] [Mul K] [OfNat K 0] (phase : Vec3 → K) : List Vec3 → List K → K
+  | R :: Rs, x :: xs => phase R * x + chanSum phase Rs xs
+  | _, _ => 0
+
+/-- the code: the down channel is summed with the down list -/
+def downOwn {K} [Add K] [Mul K] [OfNat K 0] (phase : Vec3 → K) (_Rup Rdn : List Vec3) (Xdn : List K) : K :=
+  chanSum phase Rdn Xdn
+
+/-- the "shared Fourier-transform object" rule: the down matrices are summed with the UP list whenever the two lists
+    have the same length (not what the code does) -/
+def downShared {K} [Add K] [Mul K] [OfNat K 0] (phase : Vec3 → K) (Rup Rdn : List Vec3) (Xdn : List K) : K :=
+  if Rup.length = Rdn.length then chanSum phase Rup Xdn else chanSum phase Rdn Xdn
+
 /-! ### rotated Pauli matrices -/
 
 /-- 2×2 matrices as functions on `Fin 2` -/
